@@ -185,14 +185,26 @@ def domain_samples(desc: Desc, dom: Domain, limit: int = 400) -> T.List[str]:
 def calendar_domains(prog: Program, fq: str, year_range: T.Tuple[int, int]) -> T.Dict[str, T.Tuple[Domain, str]]:
     """Read the `kwargs = {...}` dict of a cal_info function: field -> (domain, provenance)."""
     fn = prog.function(fq)
-    dicts = [n for n in ast.walk(fn.node) if isinstance(n, ast.Dict) and n.keys and all(isinstance(k, ast.Constant) for k in n.keys)]
-    if len(dicts) != 1:
+    table = field_table(fn)
+    if table is None:
         raise AnalysisError(f"{fq}: expected one field dict")
     date_param = fn.params[0] if fn.params else "date"
     out: T.Dict[str, T.Tuple[Domain, str]] = {}
-    for k, v in zip(dicts[0].keys, dicts[0].values):
-        out[k.value] = _cal_expr_domain(prog, fn, v, date_param, year_range)
+    for k, v in table.items():
+        out[k] = _cal_expr_domain(prog, fn, v, date_param, year_range)
     return out
+
+
+def field_table(fn: FunctionInfo) -> T.Optional[T.Dict[str, ast.AST]]:
+    """field -> value expression of a cal_info function: its one dict display with constant keys, or the keyword
+    arguments of its one `...CalendarInfo(...)` constructor call."""
+    dicts = [n for n in ast.walk(fn.node) if isinstance(n, ast.Dict) and n.keys and all(isinstance(k, ast.Constant) for k in n.keys)]
+    if len(dicts) == 1:
+        return {k.value: v for k, v in zip(dicts[0].keys, dicts[0].values)}
+    ctors = [n for n in ast.walk(fn.node) if isinstance(n, ast.Call) and unparse(n.func).endswith("CalendarInfo") and n.keywords and all(k.arg for k in n.keywords) and not n.args]
+    if not dicts and len(ctors) == 1:
+        return {k.arg: k.value for k in ctors[0].keywords}
+    return None
 
 
 def _cal_expr_domain(prog: Program, fn: FunctionInfo, v: ast.AST, date: str, yr: T.Tuple[int, int]) -> T.Tuple[Domain, str]:
